@@ -42,7 +42,7 @@ func (g *coreGen) fresh(p string) string {
 func varsOf(vars []gvar, typ string) []string {
 	var res []string
 	for _, v := range vars {
-		if v.typ == typ {
+		if v.typ == typ || (typ == "int" && v.typ == "roint") {
 			res = append(res, v.name)
 		}
 	}
@@ -231,7 +231,7 @@ func (g *coreGen) printVars(ind int, vars []gvar) {
 	var names []string
 	for _, v := range vars {
 		switch v.typ {
-		case "int", "bool", "string", "float64", "[]int":
+		case "int", "roint", "bool", "string", "float64", "[]int":
 			names = append(names, v.name)
 		case "map[string]int":
 			names = append(names, fmt.Sprintf("len(%s)", v.name), fmt.Sprintf("%s[\"a\"]", v.name))
@@ -354,7 +354,7 @@ func (g *coreGen) stmts(ind, depth, n int, vars []gvar, rets []string) []gvar {
 			g.kinds["for"]++
 			iv := g.fresh("i")
 			g.line(ind, "for %s := 0; %s < %d; %s++ {", iv, iv, 1+g.r.intn(4), iv)
-			inner := append(append([]gvar{}, local...), gvar{iv, "int"})
+			inner := append(append([]gvar{}, local...), gvar{iv, "roint"})
 			g.inLoop++
 			if g.r.chance(40) {
 				g.line(ind+1, "if %s {", g.boolExpr(inner, 1))
@@ -371,7 +371,7 @@ func (g *coreGen) stmts(ind, depth, n int, vars []gvar, rets []string) []gvar {
 			g.line(ind, "%s := 0", cv)
 			g.line(ind, "for %s < %d {", cv, 1+g.r.intn(4))
 			g.line(ind+1, "%s++", cv)
-			inner := append(append([]gvar{}, local...), gvar{cv, "int"})
+			inner := append(append([]gvar{}, local...), gvar{cv, "roint"})
 			g.inLoop++
 			if g.r.chance(40) {
 				g.line(ind+1, "if %s {", g.boolExpr(inner, 1))
